@@ -19,6 +19,7 @@ import time
 
 from pv import core
 from pv import c16_world as W
+from pv import c16_suite as S
 
 TIERS = {
     # model cfg, simulate traces, simulate depth
@@ -327,76 +328,154 @@ def run(tier):
     conf = dict(TIERS["thorough" if tier == "thorough" else "quick"])
     if os.environ.get("PV_C16_SIM"):           # development / demonstrations
         conf["sim_num"] = int(os.environ["PV_C16_SIM"])
+    bindings = os.environ.get("PV_C16_BINDINGS", "AB").upper()
     out = core.Outcome("C16", tier, "model_checking", matchers=MATCHERS)
     workers = int(os.environ.get("PV_WORKERS", core.NCPU))
     cov = {"states": 0, "transitions": 0, "traces_validated_against_impl": 0,
-           "samples": [], "exhaustive": True, "divergences": 0, "unsupported": 0}
+           "samples": [], "exhaustive": True, "divergences": 0, "unsupported": 0,
+           "evaluations": 0, "distinct_nontrivial": 0, "bindings": bindings}
     tmp = core.mktemp("pv-c16-")
+    assumptions = []
     try:
-        # 1. the model: its own transitions satisfy the clauses; dump states
-        t0 = time.time()
-        sim = {}
-        thr = threading.Thread(target=_sim_thread, args=(tier, conf, tmp, sim))
-        thr.start()
-        mres, dumped = _model(os.environ.get("PV_C16_CFG") or conf["cfg"], workers)
-        cov["t_model_s"] = round(time.time() - t0, 1)
-        cov["model_states"] = mres.distinct
-        cov["model_transitions"] = mres.generated
-        cov["states"] += mres.distinct
-        cov["transitions"] += mres.generated
-        items, seen = [], set()
-        for d in sorted(dumped, key=lambda d: d["d"]):
-            key = W.skey(W.canon_state(d["st"]))
-            if key in seen:
-                continue
-            seen.add(key)
-            items.append((d["st"], sorted(d["ops"],
-                                          key=lambda o: json.dumps(o, sort_keys=True))))
-        items.sort(key=lambda it: W.skey(W.canon_state(it[0])))
-        cov["model_distinct_abstract_states"] = len(items)
-        cov["model_depth"] = max(d["d"] for d in dumped)
-        # 2. binding A: every (state, op) on the real tables
-        pool = Pool()
-        unsupported = []
-        t0 = time.time()
-        results = core.pool_map(_replay_state, items, procs=workers, chunksize=1)
-        unbuildable = 0
-        for err, pre, recs, unsup, build in results:
-            if err:
-                unbuildable += 1
-            for op, o, res, post in recs:
-                pool.add(pre, op, o, res, post or pre, "exhaustive")
-            for tup in build:
-                pool.add(*tup, "build")
-            unsupported += unsup
-        cov["unbuildable_states"] = unbuildable
-        n_exh = len(pool.tuples)
-        if not n_exh:
-            raise core.MachineryError("C16: nothing was replayed")
-        cov["t_replay_s"] = round(time.time() - t0, 1)
-        t0 = time.time()
-        cov["pairs_from_model"] = sum(len(it[1]) for it in items)
-        # 3. long histories from -simulate, replayed on one set of real tables
-        thr.join()
-        if "err" in sim:
-            raise sim["err"]
-        hists = sim["hists"]
-        hists.sort(key=lambda h: json.dumps(h, sort_keys=True))
-        for recs, unsup in core.pool_map(_replay_history, hists, procs=workers):
-            for pre, op, o, res, post in recs:
-                pool.add(pre, op, o, res, post, "simulate")
-            unsupported += unsup
-        cov["t_simulate_s"] = round(time.time() - t0, 1)
-        t0 = time.time()
-        cov["simulated_histories"] = len(hists)
-        cov["simulated_steps"] = len(pool.tuples) - n_exh
-        # 4. TLC decides
-        if os.environ.get("PV_C16_CORRUPT"):      # binding demo: flip one field
-            _corrupt(pool, os.environ["PV_C16_CORRUPT"])
-        bad, divs, div_samples = _validate(pool, tmp, cov, workers)
-        cov["t_validate_s"] = round(time.time() - t0, 1)
+        handle = None
+        if "B" in bindings:
+            # the repository's tests run under the recorder while binding A works
+            procs = workers if "A" not in bindings else max(2, workers // 2)
+            handle = S.start(tmp, tier, procs)
+        if "A" in bindings:
+            assumptions += _binding_a(tier, conf, out, cov, tmp, workers)
+        if handle is not None:
+            assumptions += _binding_b(handle, out, cov, tmp, workers)
     finally:
+        if handle is not None and handle["proc"].poll() is None:
+            handle["proc"].kill()
         shutil.rmtree(tmp, ignore_errors=True)
+    cov["rule"] = ("one case = one (projected real pre-state, operation with "
+                   "arguments, outcome, result, projected real post-state) tuple; "
+                   "non-trivial = the call returned or changed the state; "
+                   "binding B: distinct recorded events (after renumbering "
+                   "symbols and renaming names within the event)")
+    return out.finish(cov, assumptions=assumptions)
+
+
+def _binding_b(handle, out, cov, tmp, workers):
+    '''Binding B (code -> spec): events recorded from the repository's own
+    tests, each distinct one judged by TLC (Trace_SymTab_Local.tla).'''
+    t0 = time.time()
+    dumps, summary, rc = S.collect(handle, 7200)
+    t_suite = round(time.time() - t0, 1)
+    shapes, stats = S.merge(dumps)
+    if not shapes:
+        raise core.MachineryError("C16 binding B: no event was recorded")
+    t0 = time.time()
+    verdicts, states, generated = S.validate(tmp, shapes, workers)
+    cov["states"] += states
+    cov["transitions"] += generated
+    skipped = {}
+    for idx in sorted(verdicts):
+        clause = verdicts[idx]
+        if clause.startswith("skip:"):
+            skipped[clause] = skipped.get(clause, 0) + 1
+            continue
+        out.violation(S.case_of(shapes[idx]), clause, {"binding": "B"})
+    nontrivial = sum(1 for s in shapes
+                     if '"out":1' in s["event"] or
+                     json.loads(s["event"])["pre"] != json.loads(s["event"])["post"])
+    cov["binding_b"] = {
+        "tests": handle["dirs"], "pytest_summary": summary, "pytest_rc": rc,
+        "events_recorded": stats["events"], "events_by_operation": stats["by_op"],
+        "refusals_recorded": stats["raised"],
+        "distinct_events_validated": len(shapes),
+        "distinct_nontrivial": nontrivial,
+        "recorder_skipped": stats["recorder_skipped"],
+        "not_judged": skipped,
+        "verdict_failures": sum(1 for c in verdicts.values()
+                                if not c.startswith("skip:")),
+        "t_wait_for_suite_s": t_suite, "t_validate_s": round(time.time() - t0, 1)}
+    cov["traces_validated_against_impl"] += len(shapes)
+    cov["evaluations"] += len(shapes)
+    cov["distinct_nontrivial"] += nontrivial
+    if len(cov["samples"]) < 4:
+        mid = shapes[len(shapes) // 2]
+        cov["samples"].append({"binding": "B", "tests": mid["tests"][:2],
+                               "event": json.loads(mid["actual"])})
+    if stats["events"] and sum(skipped.values()) > 0.2 * len(shapes):
+        raise core.MachineryError("C16 binding B: more than 20% of the distinct "
+                                  "events start in a malformed state")
+    return [
+        "binding B: only top-level public calls are events; the state is the "
+        "scope chain of the table (and the other table) restricted to the "
+        "entries the call involves, identically before and after",
+        "binding B: calls limited by scope_limit/visibility, states with a "
+        "scope that has no table, and events starting in a state that already "
+        "breaks a clause are counted, not judged; at most "
+        "C16_PER_TEST_OP (60) events per test and operation"]
+
+
+def _binding_a(tier, conf, out, cov, tmp, workers):
+    '''Binding A (spec -> code), see the module docstring.'''
+    # 1. the model: its own transitions satisfy the clauses; dump states
+    t0 = time.time()
+    sim = {}
+    thr = threading.Thread(target=_sim_thread, args=(tier, conf, tmp, sim))
+    thr.start()
+    mres, dumped = _model(os.environ.get("PV_C16_CFG") or conf["cfg"], workers)
+    cov["t_model_s"] = round(time.time() - t0, 1)
+    cov["model_states"] = mres.distinct
+    cov["model_transitions"] = mres.generated
+    cov["states"] += mres.distinct
+    cov["transitions"] += mres.generated
+    items, seen = [], set()
+    for d in sorted(dumped, key=lambda d: d["d"]):
+        key = W.skey(W.canon_state(d["st"]))
+        if key in seen:
+            continue
+        seen.add(key)
+        items.append((d["st"], sorted(d["ops"],
+                                      key=lambda o: json.dumps(o, sort_keys=True))))
+    items.sort(key=lambda it: W.skey(W.canon_state(it[0])))
+    cov["model_distinct_abstract_states"] = len(items)
+    cov["model_depth"] = max(d["d"] for d in dumped)
+    # 2. binding A: every (state, op) on the real tables
+    pool = Pool()
+    unsupported = []
+    t0 = time.time()
+    results = core.pool_map(_replay_state, items, procs=workers, chunksize=1)
+    unbuildable = 0
+    for err, pre, recs, unsup, build in results:
+        if err:
+            unbuildable += 1
+        for op, o, res, post in recs:
+            pool.add(pre, op, o, res, post or pre, "exhaustive")
+        for tup in build:
+            pool.add(*tup, "build")
+        unsupported += unsup
+    cov["unbuildable_states"] = unbuildable
+    n_exh = len(pool.tuples)
+    if not n_exh:
+        raise core.MachineryError("C16: nothing was replayed")
+    cov["t_replay_s"] = round(time.time() - t0, 1)
+    t0 = time.time()
+    cov["pairs_from_model"] = sum(len(it[1]) for it in items)
+    # 3. long histories from -simulate, replayed on one set of real tables
+    thr.join()
+    if "err" in sim:
+        raise sim["err"]
+    hists = sim["hists"]
+    hists.sort(key=lambda h: json.dumps(h, sort_keys=True))
+    for recs, unsup in core.pool_map(_replay_history, hists, procs=workers):
+        for pre, op, o, res, post in recs:
+            pool.add(pre, op, o, res, post, "simulate")
+        unsupported += unsup
+    cov["t_simulate_s"] = round(time.time() - t0, 1)
+    t0 = time.time()
+    cov["simulated_histories"] = len(hists)
+    cov["simulated_steps"] = len(pool.tuples) - n_exh
+    # 4. TLC decides
+    if os.environ.get("PV_C16_CORRUPT"):      # binding demo: flip one field
+        _corrupt(pool, os.environ["PV_C16_CORRUPT"])
+    bad, divs, div_samples = _validate(pool, tmp, cov, workers)
+    cov["t_validate_s"] = round(time.time() - t0, 1)
     for tup, clause in bad:
         case = _case(tup)
         out.violation(case, clause, {"diff": _diff(case)})
@@ -405,9 +484,9 @@ def run(tier):
             f"C16: {unbuildable} model states could not be built through the "
             f"public API although no build step violated a clause")
     total = len(pool.tuples)
-    cov["traces_validated_against_impl"] = total
-    cov["evaluations"] = total
-    cov["distinct_nontrivial"] = len({t[:5] for t in pool.tuples
+    cov["traces_validated_against_impl"] += total
+    cov["evaluations"] += total
+    cov["distinct_nontrivial"] += len({t[:5] for t in pool.tuples
                                       if t[2] == 1 or t[0] != t[4]})
     cov["refusals"] = sum(1 for t in pool.tuples if t[2] == 0)
     cov["state_changing"] = sum(1 for t in pool.tuples if t[0] != t[4])
@@ -427,10 +506,7 @@ def run(tier):
     for k in (len(pool.tuples) // 7, len(pool.tuples) // 2, n_exh + 5):
         if 0 <= k < len(pool.tuples) and len(cov["samples"]) < 3:
             cov["samples"].append(_case(pool.tuples[k]))
-    cov["rule"] = ("one case = one (projected real pre-state, operation with "
-                   "arguments, outcome, result, projected real post-state) tuple; "
-                   "non-trivial = the call returned or changed the state")
-    return out.finish(cov, assumptions=[
+    return [
         "states are built through the public API (add/specify_argument_list/"
         "attach) in increasing symbol-id order; dict insertion order is not "
         "part of the abstract state",
@@ -439,7 +515,7 @@ def run(tier):
         "loop-body table is detached/attached (no scope without a table "
         "between two scopes with tables)",
         "any exception type is a refusal; KeyError from lookup/lookup_with_tag "
-        "means 'not found'"])
+        "means 'not found'"]
 
 
 def _corrupt(pool, how):
